@@ -488,7 +488,7 @@ pub fn structs(module: &naga::Module, options: WriteOptions) -> «(r:» TokenStr
     let structs «= { let __m = { let __f = { let __i» = module
         .types
         .iter()«; proof { gi = __i; } __i }»
-        .shim_filter(|__p0| «-> (o: bool) ensures o == emitted_h(module, global_variable_types@, __p0.0)» { let (h, _) = __p0;
+        .shim_filter(|__p0| «-> (o: bool) ensures o == emitted_h(module, global_variable_types@, __p0.0) /* [C08.filter] emitted iff reachable from a module-scope variable, or an entry parameter that is not an entry result */» { let (h, _) = __p0;
             // Check if the struct will need to be used by the user from Rust.
             // This includes function inputs like vertex attributes and global variables.
             // Shader stage function outputs will not be accessible from Rust.
